@@ -204,6 +204,8 @@ pub struct RunOutG<S> {
     pub self_enqueue: bool,
     pub log: Vec<(u32, Ev<S>)>,
     pub c: CounterVals,
+    /// real-thread parallel run that had to be abandoned by the wall-clock watchdog (inconclusive)
+    pub watchdog: bool,
 }
 impl<S> std::fmt::Debug for RunOutG<S> {
     fn fmt(&self, f: &mut std::fmt::Formatter<'_>) -> std::fmt::Result {
@@ -367,7 +369,10 @@ pub fn run_core<S: StateT>(core: &Core<S>, dd: DdKind, cache: CacheKind, fringe_
     let mut fringe = RecFringe { inner: inner_fringe, log: log.clone(), len_mirror: opts.len_mirror.clone().unwrap_or_else(|| Arc::new(AtomicUsize::new(0))), on_push: Some(on_push), on_pop: Some(on_pop) };
     set_cache_observer::<S>(Some(Arc::new(LogCacheObs { log: log.clone(), yield_hook: fine.clone() })));
     take_panics();
-    let res = catch_unwind(AssertUnwindSafe(|| {
+    // an un-scheduled parallel run goes under the passive observer (a crashed worker must not hang the check)
+    let free = opts.threads.is_some() && opts.yield_hook.is_none();
+    let mut free_report = crate::sched::FreeReport::default();
+    let mut body = || catch_unwind(AssertUnwindSafe(|| {
         macro_rules! go {
             ($D:ty, $C:ty) => {
                 solve::<S, $D, HookCache<$C>>(&pb, &rlx, rank, &width, &dom, cut.as_ref(), &mut fringe, opts)
@@ -382,6 +387,16 @@ pub fn run_core<S: StateT>(core: &Core<S>, dd: DdKind, cache: CacheKind, fringe_
             (DdKind::Pooled, CacheKind::Simple) => go!(Pooled<S>, SimpleCache<S>),
         }
     }));
+    let res = if free {
+        let (r, rep) = crate::sched::with_free_run(body);
+        free_report = rep;
+        if rep.watchdog_fired {
+            crate::infra::note_watchdog();
+        }
+        r
+    } else {
+        body()
+    };
     set_cache_observer::<S>(None);
     let polls = cut.nb_polls();
     let fired = cut.fired.load(AO::SeqCst);
@@ -405,6 +420,7 @@ pub fn run_core<S: StateT>(core: &Core<S>, dd: DdKind, cache: CacheKind, fringe_
             self_enqueue: se,
             log: evs,
             c: cv,
+            watchdog: free_report.watchdog_fired,
         },
         Err(_) => {
             let p = take_panics();
@@ -423,6 +439,7 @@ pub fn run_core<S: StateT>(core: &Core<S>, dd: DdKind, cache: CacheKind, fringe_
                 self_enqueue: se,
                 log: evs,
                 c: cv,
+                watchdog: free_report.watchdog_fired,
             }
         }
     }
